@@ -20,7 +20,7 @@ import (
 
 const modulePath = "github.com/pion/transport/v3"
 
-var paramOverride string
+var paramOverride, fixedOverride string
 
 var (
 	verifDir = "/verif"
@@ -88,6 +88,7 @@ func (o *options) register(fs *flag.FlagSet) {
 	fs.BoolVar(&o.trace, "trace", o.trace, "trace instructions")
 	fs.BoolVar(&o.noValidate, "novalidate", o.noValidate, "skip translator validation")
 	fs.StringVar(&paramOverride, "param", paramOverride, "override harness parameters: a=1,b=2")
+	fs.StringVar(&fixedOverride, "fixed", fixedOverride, "fix nondeterministic inputs (debugging): name#0=1,other#0=2")
 }
 
 func main() {
@@ -252,6 +253,15 @@ func checkProp(p *Prop, tier, onlyRun string, keepLogs, trace, validate bool) in
 			c.PkgPath = modulePath + "/" + p.Pkgs[0].Dir
 		}
 		c.Trace = trace
+		if fixedOverride != "" {
+			c.Fixed = map[string]string{}
+			for _, kv := range strings.Split(fixedOverride, ",") {
+				p := strings.SplitN(kv, "=", 2)
+				if len(p) == 2 {
+					c.Fixed[p[0]] = p[1]
+				}
+			}
+		}
 		if keepLogs {
 			os.MkdirAll("/tmp/vlog", 0o755)
 			c.LogDir = "/tmp/vlog"
